@@ -63,8 +63,12 @@ type census struct {
 }
 
 var (
-	cs      census
-	hookCfg = map[string]string{} // "pkgpath.Func" -> decoration name
+	cs census
+	// decoration points: fully qualified constructor -> (name passed to
+	// simrt.Decorate, interface type of the same package its result is used at)
+	decorateCfg = map[string][2]string{
+		krakenPrefix + "lib/torrent/scheduler/announcequeue.New": {"announcequeue.New", "Queue"},
+	}
 )
 
 func main() {
@@ -140,8 +144,8 @@ func main() {
 	cb, _ := json.MarshalIndent(cs, "", " ")
 	os.WriteFile(filepath.Join(*out, "..", "census.json"), cb, 0o644)
 	h := sha256.Sum256(b)
-	fmt.Printf("simgen: %d packages, %d files rewritten (go=%d send=%d recv=%d select=%d rangechan=%d rangemap=%d sleep=%d imports=%d fatal=%d) overlay=%s skipped=%d\n",
-		cs.Packages, cs.Files, cs.Go, cs.Send, cs.Recv, cs.Select, cs.RangeChan, cs.RangeMap, cs.Sleep, cs.Imports, cs.Fatal, hex.EncodeToString(h[:4]), len(cs.Skipped))
+	fmt.Printf("simgen: %d packages, %d files rewritten (go=%d send=%d recv=%d select=%d rangechan=%d rangemap=%d sleep=%d imports=%d fatal=%d decorate=%d) overlay=%s skipped=%d\n",
+		cs.Packages, cs.Files, cs.Go, cs.Send, cs.Recv, cs.Select, cs.RangeChan, cs.RangeMap, cs.Sleep, cs.Imports, cs.Fatal, cs.Decorate, hex.EncodeToString(h[:4]), len(cs.Skipped))
 	for _, s := range cs.Skipped {
 		fmt.Fprintln(os.Stderr, "simgen: skipped", s)
 	}
@@ -158,6 +162,7 @@ type rewriter struct {
 	rangeKind map[*ast.RangeStmt]int // 1 chan, 2 map
 	goInline  map[*ast.GoStmt][]bool
 	isSleep   map[*ast.CallExpr]bool
+	decorate  map[*ast.CallExpr][2]string // call -> (name, qualified interface type)
 	recvOf    map[ast.Expr]ast.Expr    // generated Recv/Recv2 call -> channel expr
 	sendOf    map[ast.Expr][2]ast.Expr // generated SendTo call -> (ch, v)
 	relabel   map[*ast.BlockStmt]int   // generated block whose last stmt must carry an outer label
@@ -179,7 +184,7 @@ func call(fun ast.Expr, args ...ast.Expr) *ast.CallExpr {
 
 func rewriteFile(p *packages.Package, f *ast.File) (bool, []byte, error) {
 	r := &rewriter{pkg: p, info: p.TypesInfo, fset: p.Fset, file: f,
-		rangeKind: map[*ast.RangeStmt]int{}, goInline: map[*ast.GoStmt][]bool{}, isSleep: map[*ast.CallExpr]bool{},
+		rangeKind: map[*ast.RangeStmt]int{}, goInline: map[*ast.GoStmt][]bool{}, isSleep: map[*ast.CallExpr]bool{}, decorate: map[*ast.CallExpr][2]string{},
 		recvOf: map[ast.Expr]ast.Expr{}, sendOf: map[ast.Expr][2]ast.Expr{}, relabel: map[*ast.BlockStmt]int{}}
 	changed := false
 
@@ -237,6 +242,66 @@ func rewriteFile(p *packages.Package, f *ast.File) (bool, []byte, error) {
 		}
 		return true
 	})
+
+	// decoration points: `return pkg.Ctor(...)` inside a function whose single
+	// result is the configured interface type of pkg
+	var funcStack []*ast.FuncType
+	var visit func(n ast.Node) bool
+	visit = func(n ast.Node) bool {
+		switch x := n.(type) {
+		case *ast.FuncDecl:
+			if x.Body != nil {
+				funcStack = append(funcStack, x.Type)
+				ast.Inspect(x.Body, visit)
+				funcStack = funcStack[:len(funcStack)-1]
+			}
+			return false
+		case *ast.FuncLit:
+			funcStack = append(funcStack, x.Type)
+			ast.Inspect(x.Body, visit)
+			funcStack = funcStack[:len(funcStack)-1]
+			return false
+		case *ast.ReturnStmt:
+			if len(x.Results) != 1 || len(funcStack) == 0 {
+				return true
+			}
+			ce, ok := x.Results[0].(*ast.CallExpr)
+			if !ok {
+				return true
+			}
+			se, ok := ce.Fun.(*ast.SelectorExpr)
+			if !ok {
+				return true
+			}
+			fo, ok := r.info.Uses[se.Sel].(*types.Func)
+			if !ok || fo.Pkg() == nil {
+				return true
+			}
+			cfg, ok := decorateCfg[fo.Pkg().Path()+"."+fo.Name()]
+			if !ok {
+				return true
+			}
+			ft := funcStack[len(funcStack)-1]
+			if ft.Results == nil || len(ft.Results.List) != 1 || len(ft.Results.List[0].Names) > 1 {
+				return true
+			}
+			rt := r.info.TypeOf(ft.Results.List[0].Type)
+			nt, ok := rt.(*types.Named)
+			if !ok || nt.Obj().Pkg() == nil || nt.Obj().Pkg().Path() != fo.Pkg().Path() || nt.Obj().Name() != cfg[1] {
+				return true
+			}
+			if _, isIface := nt.Underlying().(*types.Interface); !isIface {
+				return true
+			}
+			pkgIdent, ok := se.X.(*ast.Ident)
+			if !ok {
+				return true
+			}
+			r.decorate[ce] = [2]string{cfg[0], pkgIdent.Name + "." + cfg[1]}
+		}
+		return true
+	}
+	ast.Inspect(f, visit)
 
 	// special package: utils/log Fatal* must not exit the process
 	if p.PkgPath == krakenPrefix+"utils/log" {
@@ -313,6 +378,14 @@ func rewriteFile(p *packages.Package, f *ast.File) (bool, []byte, error) {
 				x.Fun = sel("simrt", x.Fun.(*ast.SelectorExpr).Sel.Name)
 				r.needSim = true
 				cs.Sleep++
+			}
+			if d, ok := r.decorate[x]; ok {
+				delete(r.decorate, x)
+				parts := strings.SplitN(d[1], ".", 2)
+				fun := &ast.IndexExpr{X: sel("simrt", "Decorate"), Index: sel(parts[0], parts[1])}
+				c.Replace(call(fun, &ast.BasicLit{Kind: token.STRING, Value: strconv.Quote(d[0])}, x))
+				r.needSim = true
+				cs.Decorate++
 			}
 		case *ast.GoStmt:
 			c.Replace(r.rewriteGo(x))
